@@ -7,7 +7,8 @@ from .. import common, meta
 LEVEL = "proof"
 RULE = ("Lean (the models are tied to base.GetMethodT / base.GetClassMethodT by the `lookup` differential stream over generated method tables and inheritance graphs): on the model of GetMethodT/getParentMethodT over Go-map models of TFrame and ClassInheritanceMap (any graph, cycles included): a resolved definition always carries the asked method "
         "name and privacy flag and exists in the table; the class's own definition wins; a direct superclass's / included module's definition is found; nothing is resolved when no key of that name "
-        "exists. End-to-end: generated hierarchies (superclass chains of depth 1-4, included and extended modules, class << self, initialize, private/protected/public sections) with calls whose "
+        "exists; explicit ancestors registered through AddParentNode come before the implicit Object ancestor for any number of them, so a superclass's override of an Object method wins "
+        "(`addparent` stream against base.AddParentNode). End-to-end: generated hierarchies (superclass chains of depth 1-4, included and extended modules, class << self, initialize, private/protected/public sections, protected calls from descendants and outsiders, overrides of to_s/inspect, classes nested after a section, receiverless calls of module methods, the whole group inside a namespace) with calls whose "
         "outcome (resolves / is reported on its row) is computed by a reference model of Ruby's rules; plus same-named classes at several lexical levels with an unqualified superclass inside nested modules "
         "(the innermost enclosing definition is the parent: C27's superclass_innermost, tied by the findns stream). Non-trivial = a hierarchy with at least one inherited call.")
 
@@ -209,6 +210,22 @@ def gen_lookup(rng):
     return "lookup %s | %s | %s | %s | %s" % (q, ";".join(ms), ";".join(es), bc, top)
 
 
+def gen_addparent(rng):
+    """a registration history of one class: the implicit Object ancestor (usually first, as the evaluators register it) and explicit ancestors"""
+    nodes = []
+    for _ in range(rng.randint(0, 5)):
+        inc, ext = rng.choice([(0, 0), (0, 0), (1, 0), (0, 1)])
+        nodes.append("~".join([rng.choice(["-", "-", "Builtin", "Mo", "Mo::Na"]), rng.choice(["Pa", "Qa", "Mod", "-"]), str(inc), str(ext)]))
+    r = rng.random()
+    if r < 0.7:
+        nodes.insert(0, "OBJ")
+    elif r < 0.85 and nodes:
+        nodes.insert(rng.randint(0, len(nodes)), "OBJ")
+    if rng.random() < 0.1:
+        nodes.append("Builtin~-~0~0")          # the Object node passed to AddParentNode itself
+    return "addparent " + " ".join(nodes)
+
+
 def gen_ns_case(rng, k):
     """classes of one short name at several lexical levels; `class Sub < Core` must inherit from the innermost enclosing definition"""
     core = "Core%d" % k
@@ -264,7 +281,7 @@ def run_e2e(ctx, n, tag):
     failures = []
     nontriv = 0
     for (text, bad, first, inh), (rc, so, se) in zip(cases, common.pmap(one, list(enumerate(cases)))):
-        if rc != 0 or so.strip().endswith("timeout"):
+        if rc != 0 or "timeout" in so.split("\n"):
             continue
         if inh:
             nontriv += 1
@@ -310,7 +327,8 @@ def run(ctx):
     def search():
         return run_e2e(ctx, 800, "s") + C27.run_samename(ctx, 60, "c16s")
 
-    common.conclude(ctx, proof_ok, {"findns": dis, "lookup": dis2}, failures, search)
+    dis3 = common.run_stream(ctx, "addparent", [gen_addparent(ctx.rng) for _ in range(ctx.pick(4000, 40000))])
+    common.conclude(ctx, proof_ok, {"findns": dis, "lookup": dis2, "addparent": dis3}, failures, search)
     evidence(ctx)
 
 
